@@ -175,7 +175,7 @@ impl Property for C02 {
         1600
     }
     fn quick_cases(&self) -> u64 {
-        8_000
+        96_000
     }
     fn states_termination(&self) -> bool {
         true
